@@ -15,8 +15,8 @@ Section C03.
   Variable prime : request -> request.
   Variable override : request -> option (bytes * option bytes).
   Variable negotiate : request -> fatx -> option (N * bytes).
-  Variable vary_tuple : request -> tuple.
-  Variable vary_header : request -> fatx -> list (bytes * bytes).
+  Variable vary_tuple : request -> option (bytes * option bytes) -> tuple.
+  Variable vary_header : request -> option (bytes * option bytes) -> fatx -> list (bytes * bytes).
   Variable clear_alias : request -> option request.
   (** handler contract: the response is a function [cf] of the request (not of handler state) that depends only on the
       method class, the path of the URI that selects the handler (the internal route if a Prime extension overrode
@@ -26,7 +26,7 @@ Section C03.
   Hypothesis Hpure : forall hs r ov ok, fst (fst (compute hs r ov ok)) = cf r ov ok.
   Hypothesis contract : forall r ov r' ov',
     get_or_head (rq_method r) = true -> get_or_head (rq_method r') = true ->
-    vary_tuple r = vary_tuple r' -> rq_path (lookup_req r ov) = rq_path (lookup_req r' ov') ->
+    vary_tuple r ov = vary_tuple r' ov' -> rq_path (lookup_req r ov) = rq_path (lookup_req r' ov') ->
     (qmx (cf r ov true) = true -> path_query (lookup_req r ov) = path_query (lookup_req r' ov')) ->
     cf r ov true = cf r' ov' true.
   Hypothesis pref_uniform : forall r ov r' ov',
@@ -59,7 +59,7 @@ Section C03.
       GET/HEAD method and — if the response is query-dependent — the same query. *)
   Theorem cache_hit_same_class : forall c now lr k e c1 v,
     TInv vary_tuple cf c -> xlookup lr c now = ((k, Some e), c1) -> xv_find (v_tuple v) (ex_vars e) = Some v ->
-    exists r1 ov1, get_or_head (rq_method r1) = true /\ vary_tuple r1 = v_tuple v /\ v_resp v = cf r1 ov1 true /\
+    exists r1 ov1, get_or_head (rq_method r1) = true /\ vary_tuple r1 ov1 = v_tuple v /\ v_resp v = cf r1 ov1 true /\
                    rq_path (lookup_req r1 ov1) = rq_path lr /\
                    (qmx (v_resp v) = true -> path_query (lookup_req r1 ov1) = path_query lr).
   Proof. exact (hit_same_class_x vary_tuple cf). Qed.
